@@ -373,7 +373,7 @@ pub fn prop() -> Prop<CloseCase> {
             "5 s bounds for thread exit; the fd/thread baseline is taken in the same process right before the case",
         ],
         needs_shim: false,
-        budget: |t| t.pick(960, 16_000),
+        budget: |t| t.pick(4800, 60000),
         shards: |_| 16,
         strategy,
         exec,
